@@ -173,6 +173,61 @@ def run_corr(case):
     return res
 
 
+def _describe(target):
+    cond = target.condition
+    return {"q": list(target.get_conversion_result()),
+            "xtree": ser_xtree(cond.parsed) if isinstance(cond, SigmaExtendedCorrelationCondition) else None,
+            "refs": [[r.reference, r.rule.name, None if r.rule.id is None else str(r.rule.id), isinstance(r.rule, SigmaCorrelationRule)]
+                     for r in target.referenced_rules]}
+
+
+def run_multi(case):
+    """Several correlation rules ("tops") over the same documents, converted through ONE backend / pipeline object:
+    mode "one": one collection holding all tops in the given order, one convert() call;
+    mode "consecutive": one convert() call per top, in the given order, on the same backend object.
+    Returns one run_corr-shaped result per top (index = position in case["tops"])."""
+    from sigma.exceptions import SigmaError
+    k, items, docs, tops = case["k"], case["pipe"], case["docs"], case["tops"]
+    own = []
+    for i in range(len(docs)):
+        sub = deps_of(docs, i)
+        try:
+            b, coll, out = convert_all(k, items, [docs[j] for j in sub])
+            target = [r for r in coll.rules if r.title == docs[i]["title"]][0]
+            own.append({"ok": list(target.get_conversion_result()), "fields": list(target.fields)})
+        except Exception as e:  # noqa
+            own.append({"exc": type(e).__name__})
+    res = [dict(own=own) for _ in tops]
+    backend = make_backend(k)(make_pipeline(k, items))
+    if case["mode"] == "one":
+        # one failing rule aborts the conversion of the whole rule set (no error collection here; that is C08's
+        # subject): such rule sets say nothing about the other rules and are skipped (counted)
+        for t in tops:
+            try:
+                convert_all(k, items, docs + [t])
+            except Exception as e:  # noqa
+                return {"skip": "a correlation rule of the set fails on its own: " + type(e).__name__}
+        try:
+            coll = SigmaCollection.from_dicts(copy.deepcopy(docs + [tops[i] for i in case["order"]]))
+            backend.convert(coll)
+            for i, t in enumerate(tops):
+                target = [r for r in coll.rules if r.title == t["title"]][0]
+                res[i].update(_describe(target))
+        except Exception as e:  # noqa
+            for r in res:
+                r["err"] = {"exc": type(e).__name__, "sigma": isinstance(e, SigmaError), "msg": str(e)[:200]}
+    else:
+        for i in case["order"]:
+            try:
+                coll = SigmaCollection.from_dicts(copy.deepcopy(docs + [tops[i]]))
+                backend.convert(coll)
+                target = [r for r in coll.rules if r.title == tops[i]["title"]][0]
+                res[i].update(_describe(target))
+            except Exception as e:  # noqa
+                res[i]["err"] = {"exc": type(e).__name__, "sigma": isinstance(e, SigmaError), "msg": str(e)[:200]}
+    return res
+
+
 def run_ts(case):
     from sigma.correlations import SigmaCorrelationTimespan
     t = SigmaCorrelationTimespan(case["spec"])
